@@ -6,7 +6,8 @@ import EosProofs.Lemmas.Rah
 Property theorems only, over the model `Eos.Rah` (which mirrors `eos/sim/reactive_armor_hardener.py`; model = code
 is checked by the differential correspondence of `tools/props/c12.py` on every run) and the constants regenerated
 from the source into `EosGen.RahConsts`. Quantifier guard (`RahOK`, `EnvOK`): base resonances at most 1 summing to
-more than 3, shift >= 0, cycle time > 0, profile non-negative with a positive entry, positive ship resonances. -/
+more than 3, shift >= 0, cycle time > 0, profile non-negative with a positive entry, positive ship resonances;
+for the history theorem (`ValidOp`, `RahFull`) additionally: shift amount and cycle time present, shift > 0. -/
 namespace Eos.C12
 open Eos.Rah
 
@@ -28,9 +29,11 @@ theorem gen_res_order : EosGen.RahConsts.resOrder = order.map typeName := by dec
 theorem gen_profile_map : EosGen.RahConsts.profileMap = allTypes.map fun t => (typeName t, profileField t) := by
   decide
 
-/-- The simulator listens to exactly the five messages the stored-results layer (`World.step`) models. -/
+/-- The simulator listens to exactly the messages the stored-results layer (`World.step`) models: ship
+    (un)loading, RAH effect start/stop, announced attribute changes (plain and masked), profile change. -/
 theorem gen_handlers : EosGen.RahConsts.handlers =
-    [("EffectsStarted", "_handle_effects_started"), ("EffectsStopped", "_handle_effects_stopped"),
+    [("ItemLoaded", "_handle_item_loaded_unloaded"), ("ItemUnloaded", "_handle_item_loaded_unloaded"),
+     ("EffectsStarted", "_handle_effects_started"), ("EffectsStopped", "_handle_effects_stopped"),
      ("AttrsValueChanged", "_handle_attr_changed"), ("AttrsValueChangedMasked", "_handle_attr_changed_masked"),
      ("RahIncomingDmgChanged", "_handle_changed_dmg_profile")] := by decide
 
@@ -263,32 +266,33 @@ theorem sim_single_dur_irrelevant {ship : Option (List Vec → Option Vec)} {p :
     (getResults ship p maxT [{ rah with dur := some d' }]).1 = (getResults ship p maxT [rah]).1 :=
   getResults_single_dur hdur hd hd' maxT
 
-/- Full statement: for every history `ops` of input changes and reads, what a read returns is
-   `getResults` of the CURRENT inputs. It FAILS on the unmodified code (known finding K2): assigning `fit.ship`, or
-   changing a modifier of a ship armor resonance while the calculator holds no value for it (which is the state the
-   simulation itself leaves behind), is not announced to the simulator and the stored results stay. The model mirrors
-   this and raises the ghost flag `stale` exactly at such an unannounced change; proved: -/
+/-- Inside the quantifier with all inputs present (and a shift amount > 0) a run with a ship never takes the
+    fallback: the simulation yields a result. -/
+theorem sim_never_fails {σ : Type} {shipFn : σ → List Vec → Option Vec} (hs : ShipFnOK shipFn) (s : σ) {p : Vec}
+    (hp : ProfOK p) (maxT : Nat) {rahs : List Rah} (hne : rahs ≠ []) (hr : ∀ r ∈ rahs, RahFull r) :
+    (getResults (some (shipFn s)) p maxT rahs).2.1 = .ok := getResults_ok hs hp maxT hne hr
 
-/-- For every history (positive cycle times), if the ghost flag is down then the stored results are the results
-    of the current inputs. -/
-theorem stored_results_current_partial {σ : Type} (shipFn : σ → List Vec → Option Vec) (maxT : Nat)
-    (ops : List (Op σ)) (hpos : ∀ op ∈ ops, PosDurOp op) (r : List Vec)
-    (hres : (World.init.run shipFn maxT ops).res = some r) (hstale : (World.init.run shipFn maxT ops).stale = false) :
+/-- For EVERY history of reads and input changes inside the quantifier (`ValidOp`: profiles as `DmgProfile`
+    accepts them, hardeners with base resonances <= 1 summing to more than 3, positive shift amounts and cycle
+    times; `ShipFnOK`: the calculator yields positive ship resonances), whatever is stored in the simulator equals
+    the results of a fresh run on the CURRENT inputs. (Before /repo commit 6652e34 this failed: known finding K2.) -/
+theorem stored_results_current {σ : Type} (shipFn : σ → List Vec → Option Vec) (hs : ShipFnOK shipFn) (maxT : Nat)
+    (ops : List (Op σ)) (hv : ∀ op ∈ ops, ValidOp op) (r : List Vec)
+    (hres : (World.init.run shipFn maxT ops).res = some r) :
     r = (getResults ((World.init.run shipFn maxT ops).ship.map shipFn) (World.init.run shipFn maxT ops).profile maxT
           (World.init.run shipFn maxT ops).inputs).1 :=
-  (winv_run ops (winv_init shipFn maxT) hpos).coh r hres hstale
+  (winv_run hs ops (winv_init shipFn maxT) hv).coh r hres
 
-/-- ... hence a read after any such history returns the results of the current inputs. -/
-theorem read_current_partial {σ : Type} (shipFn : σ → List Vec → Option Vec) (maxT : Nat)
-    (ops : List (Op σ)) (hpos : ∀ op ∈ ops, PosDurOp op)
-    (hstale : ((World.init.run shipFn maxT ops).step shipFn maxT .readRah).stale = false)
-    (hne : (World.init.run shipFn maxT ops).rahs ≠ []) :
+/-- ... hence a read after any such history returns the results of the current inputs: results depend only on
+    current inputs. -/
+theorem read_current {σ : Type} (shipFn : σ → List Vec → Option Vec) (hs : ShipFnOK shipFn) (maxT : Nat)
+    (ops : List (Op σ)) (hv : ∀ op ∈ ops, ValidOp op) (hne : (World.init.run shipFn maxT ops).rahs ≠ []) :
     ((World.init.run shipFn maxT ops).step shipFn maxT .readRah).exposed =
       (getResults ((World.init.run shipFn maxT ops).ship.map shipFn) (World.init.run shipFn maxT ops).profile maxT
         (World.init.run shipFn maxT ops).inputs).1 := by
   generalize hw : World.init.run shipFn maxT ops = w at *
-  have hinv : WInv shipFn maxT w := hw ▸ winv_run ops (winv_init shipFn maxT) hpos
-  have hinv' := winv_step hinv .readRah trivial
+  have hinv : WInv shipFn maxT w := hw ▸ winv_run hs ops (winv_init shipFn maxT) hv
+  have hinv' := winv_step hs hinv .readRah trivial
   have hfill : ∀ w' : World σ, w' = w.step shipFn maxT .readRah → w'.ship = w.ship ∧ w'.profile = w.profile ∧
       w'.inputs = w.inputs ∧ w'.res.isSome := by
     intro w' e; subst e
@@ -300,64 +304,11 @@ theorem read_current_partial {σ : Type} (shipFn : σ → List Vec → Option Ve
     · exact ⟨rfl, rfl, by simp [World.inputs, markRead_rah], rfl⟩
   obtain ⟨h1, h2, h3, h4⟩ := hfill _ rfl
   obtain ⟨r, hr⟩ := Option.isSome_iff_exists.mp h4
-  have := hinv'.coh r hr hstale
+  have := hinv'.coh r hr
   unfold World.exposed
   rw [hr, Option.getD_some, this]
   unfold World.current
   rw [h1, h2, h3]
-
-/-- The ghost flag is raised only by an unannounced change: a ship assignment, or a change of a ship resonance /
-    shift amount / cycle time whose current value the calculator does not hold. -/
-theorem stale_raised_only_unannounced {σ : Type} (shipFn : σ → List Vec → Option Vec) (maxT : Nat) (w : World σ)
-    (op : Op σ) (h0 : w.stale = false) (h1 : (w.step shipFn maxT op).stale = true) :
-    (∃ s, op = .setShip s) ∨ (∃ ts s, op = .shipMod ts s ∧ ∀ t ∈ ts, t ∉ w.shipC) ∨
-    (∃ i v, op = .setShift i v ∧ (w.rahs[i]?.map (·.shiftC)).getD false = false) ∨
-    (∃ i v, op = .setDur i v ∧ (w.rahs[i]?.map (·.durC)).getD false = false) := by
-  have hclear : ∀ w' : World σ, w'.stale = false → w'.clear.stale = false := by
-    intro w' h; unfold World.clear; split <;> simp [h]
-  cases op with
-  | readRah => simp only [World.step, World.fill] at h1; split at h1 <;> simp_all
-  | readShip t =>
-    simp only [World.step, World.fill] at h1
-    split at h1
-    · simp_all
-    · split at h1 <;> simp_all
-  | setRahProfile p =>
-    simp only [World.step] at h1
-    split at h1
-    · simp_all
-    · rw [hclear _ (by exact h0)] at h1; simp at h1
-  | setDefProfile p =>
-    simp only [World.step] at h1
-    split at h1
-    · rw [hclear _ (by exact h0)] at h1; simp at h1
-    · simp_all
-  | setShip s => exact Or.inl ⟨s, rfl⟩
-  | shipMod ts s =>
-    simp only [World.step] at h1
-    split at h1
-    · simp_all
-    · split at h1
-      · rw [hclear _ (by exact h0)] at h1; simp at h1
-      · rename_i hn
-        refine Or.inr (Or.inl ⟨ts, s, rfl, ?_⟩)
-        intro t ht hc
-        exact hn (List.any_eq_true.mpr ⟨t, ht, by simpa using hc⟩)
-  | setShift i v =>
-    simp only [World.step] at h1
-    split at h1
-    · rw [hclear _ (by exact h0)] at h1; simp at h1
-    · rename_i hn; exact Or.inr (Or.inr (Or.inl ⟨i, v, rfl, by simpa using hn⟩))
-  | setDur i v =>
-    simp only [World.step] at h1
-    split at h1
-    · simp_all
-    · split at h1
-      · rw [hclear _ (by exact h0)] at h1; simp at h1
-      · rename_i hn; exact Or.inr (Or.inr (Or.inr ⟨i, v, rfl, by simpa using hn⟩))
-  | setBase i v => simp only [World.step] at h1; rw [hclear _ (by exact h0)] at h1; simp at h1
-  | start r sc dc => simp [World.step] at h1
-  | stop i => simp [World.step] at h1
 
 /-! ## Non-vacuity -/
 
@@ -393,13 +344,20 @@ example : nextResos ⟨85/100, 85/100, 85/100, 85/100⟩ ⟨0, 5, 0, 0⟩ (6/100
 
 def demoRun (ops : List (Op Unit)) : World Unit := World.init.run (fun _ _ => none) maxTicks ops
 
-/-- A history after which the hypotheses of `stored_results_current_partial` hold (results stored, flag down) ... -/
-example (r : Rah) : (demoRun [.start r false false, .readRah]).res = some [r.base] ∧
-    (demoRun [.start r false false, .readRah]).stale = false := ⟨rfl, rfl⟩
+/-- A history after which results are stored (here: without a ship, the unsimulated values) ... -/
+example (r : Rah) : (demoRun [.start r false false, .readRah]).res = some [r.base] := rfl
 
-/-- ... and the K2 shape: a ship assignment after a read keeps the stored results and raises the ghost flag. -/
-example (r : Rah) : (demoRun [.start r false false, .readRah, .setShip (some ())]).res = some [r.base] ∧
-    (demoRun [.start r false false, .readRah, .setShip (some ())]).stale = true := ⟨rfl, rfl⟩
+/-- ... and assigning a ship afterwards drops them (the repaired K2 shape). -/
+example (r : Rah) : (demoRun [.start r false false, .readRah, .setShip (some ())]).res = none := rfl
+
+/-- `ValidOp` and `ShipFnOK` are satisfiable. -/
+example : ValidOp (.start ⟨⟨85/100, 85/100, 85/100, 85/100⟩, some 6, some 10⟩ false false : Op Unit) :=
+  ⟨⟨by decide +kernel, by intro t; cases t <;> decide +kernel, by intro s h; cases h; decide +kernel,
+    by intro d h; cases h; decide +kernel⟩, ⟨6, rfl, by decide +kernel⟩, ⟨10, rfl, by decide +kernel⟩⟩
+
+example : ShipFnOK (fun (_ : Unit) (_ : List Vec) => some ⟨1/2, 13/20, 3/4, 9/10⟩) := by
+  intro s rs
+  exact ⟨_, rfl, fun _ t => by cases t <;> decide +kernel⟩
 
 /-- A single-type damage vector. -/
 example : SingleType ⟨0, 0, 7, 0⟩ .kin := ⟨by decide +kernel, by intro t ht; cases t <;> first | rfl | exact absurd rfl ht⟩
